@@ -50,7 +50,8 @@ var (
 		"http://*.localhost.example", "http://app.localhost:8080", "http://a.b.localhost", "connector://x.localhost",
 	}
 	originsPSL = []string{"https://*.com", "https://*.co.uk:*", "https://*.com.", "https://*.github.io", "https://*.co.uk.:8080",
-		"http://*.localhost", "http://*.localhost:8080", "https://*.localhost"} // `localhost` is a public suffix by the list's default rule; the pattern side compares the base host with "localhost"
+		"http://*.localhost", "http://*.localhost:8080", "https://*.localhost",
+		"https://*.internal", "https://*.corp", "https://*.home", "https://*.lan:8443", "https://*.local", "https://*.test", "https://*.example", "https://*.invalid", "https://*.unlisted-tld-xyz"} // `localhost` is a public suffix by the list's default rule; the pattern side compares the base host with "localhost"
 	originsDefect = []string{
 		"null", "file:///x", "file://localhost", "https://résumé.com", "https://EXAMPLE.com", "https://Example.com",
 		"http://example.com:80", "https://example.com:443", "https://example.com:0", "https://example.com:65536",
